@@ -91,4 +91,18 @@ var items = []modItem{
 	{"Region", Item{Dir: "save/region", Kind: "func", Func: "In", Name: "In"}},
 	{"Region", Item{Dir: "save/region", Kind: "func", Func: "At", Name: "At"}},
 	{"Region", Item{Dir: "save/region", Kind: "expr", Recv: "Region", Func: "WriteSector", Local: "need", Name: "WriteSector_need"}},
+	// ---- nbt (C01/C03): the thirteen tag ids ----
+	{"NBT", Item{Dir: "nbt", Kind: "const", Func: "TagEnd", Name: "TagEnd"}},
+	{"NBT", Item{Dir: "nbt", Kind: "const", Func: "TagByte", Name: "TagByte"}},
+	{"NBT", Item{Dir: "nbt", Kind: "const", Func: "TagShort", Name: "TagShort"}},
+	{"NBT", Item{Dir: "nbt", Kind: "const", Func: "TagInt", Name: "TagInt"}},
+	{"NBT", Item{Dir: "nbt", Kind: "const", Func: "TagLong", Name: "TagLong"}},
+	{"NBT", Item{Dir: "nbt", Kind: "const", Func: "TagFloat", Name: "TagFloat"}},
+	{"NBT", Item{Dir: "nbt", Kind: "const", Func: "TagDouble", Name: "TagDouble"}},
+	{"NBT", Item{Dir: "nbt", Kind: "const", Func: "TagByteArray", Name: "TagByteArray"}},
+	{"NBT", Item{Dir: "nbt", Kind: "const", Func: "TagString", Name: "TagString"}},
+	{"NBT", Item{Dir: "nbt", Kind: "const", Func: "TagList", Name: "TagList"}},
+	{"NBT", Item{Dir: "nbt", Kind: "const", Func: "TagCompound", Name: "TagCompound"}},
+	{"NBT", Item{Dir: "nbt", Kind: "const", Func: "TagIntArray", Name: "TagIntArray"}},
+	{"NBT", Item{Dir: "nbt", Kind: "const", Func: "TagLongArray", Name: "TagLongArray"}},
 }
